@@ -20,7 +20,7 @@ FAMILIES_BY_CELL = {
     "tri": ["tri-tensor", "tri-delaunay", "tri-holes", "tri-two-components",
             "tri-fan"],
     "quad": ["quad-tensor", "quad-sheared", "quad-jiggled"],
-    "tet": ["tet-tensor", "tet-delaunay", "tet-single"],
+    "tet": ["tet-tensor", "tet-delaunay", "tet-single", "tet-sliver"],
     "hex": ["hex-box", "hex-affine", "hex-jiggled"],
     "wedge": ["wedge-extruded"],
 }
@@ -267,6 +267,18 @@ def _tet_delaunay(rng, n, jiggle=0.5, **_):
     return _compress(pts.T, t)
 
 
+def _tet_sliver(rng, n, **_):
+    """Delaunay triangulation of random points in a thin plate or a needle:
+    badly shaped, strongly anisotropic cells (long bisection chains)."""
+    box = rng.choice([(1.0, 0.1, 0.01), (1.0, 0.01, 0.003), (1.0, 1.0, 0.02),
+                      (0.05, 1.0, 0.2)])
+    k = 6 + 8 * max(1, n) + rng.randint(0, 6)
+    pts = np.array([[round(rng.uniform(0, b), 6) for b in box]
+                    for _ in range(k)])
+    t = _delaunay(pts, 1e-9 * box[0] * box[1] * box[2])
+    return _compress(pts.T, t)
+
+
 def _tet_single(rng, n, **_):
     """1..n tetrahedra glued along faces (a random strip)."""
     P = [np.array([0., 0., 0.]), np.array([1., 0., 0.]),
@@ -377,7 +389,7 @@ _BUILDERS = {
     "quad-tensor": _quad_tensor, "quad-sheared": _quad_sheared,
     "quad-jiggled": _quad_jiggled,
     "tet-tensor": _tet_tensor, "tet-delaunay": _tet_delaunay,
-    "tet-single": _tet_single,
+    "tet-single": _tet_single, "tet-sliver": _tet_sliver,
     "hex-box": _hex_box, "hex-affine": _hex_affine,
     "hex-jiggled": _hex_jiggled,
     "wedge-extruded": _wedge,
